@@ -9,6 +9,7 @@ import vlib
 from vlib import vbytes, vlist, vopt, vbool, parse_val
 from props import cli_common as K
 from props.C15 import classify_stderr
+from props import child_failure as CF
 
 NEED_RG = True
 MANIFEST = dict(
@@ -18,10 +19,13 @@ MANIFEST = dict(
          "search_preprocessor/search_decompress over an abstract child {spawn_ok, stdout, stderr, success when fully read, "
          "success when cut short} and ANY consumer that may stop early: preprocessor_outcome_table, "
          "searched_bytes_are_child_stdout, early_stop_not_error, preprocessor_failure_iff, start_failure, "
-         "failure_sets_status_2 (with C15). Tie: the real grep_cli::CommandReader driven like search_preprocessor on "
+         "failure_sets_status_2 (with C15); flag_override_law(_generated): the update rules of --pre/--no-pre/-z/"
+         "--no-search-zip REGENERATED from defs.rs, applied to any flag list, equal the documented 'last flag that speaks "
+         "about a setting decides it'. Tie: the real grep_cli::CommandReader driven like search_preprocessor on "
          "generated shell children (library level, exact for 1-byte reads), and rg --pre / -z runs with generated scripts "
          "(echo, transform, noisy, exit 0..255 before/during/after output, missing, not executable), early stops via "
-         "-m/-q/-l and binary detection, valid and truncated gzip/bzip2/xz: (stdout, stderr kind, status) vs the model and "
+         "-m/-q/-l and binary detection, a failing child (--pre and -z) x every early-stopping mode x -j, all orders/"
+         "spellings/empty values of --pre/--no-pre/-z/--no-search-zip, valid and truncated gzip/bzip2/xz: (stdout, stderr kind, status) vs the model and "
          "vs rg run directly on the command's output. PARTIAL: 'large stderr never blocks' is liveness of the helper "
          "thread and OS pipes — exercised with up to 4 MiB on stderr under a timeout, not proved.",
     note="known findings: EarlyStopWithStderrOutput (close()'s documented heuristic), DecompressorMissingSearchesRaw "
@@ -32,7 +36,7 @@ MANIFEST = dict(
 KNOWN_NOISY = "EarlyStopWithStderrOutput"
 KNOWN_RAW = "DecompressorMissingSearchesRaw"
 GEN_TARGETS = ["close_is_error", "select_strategy", "should_preprocess", "should_decompress", "select_binary",
-               "binary_detection"]
+               "binary_detection", "pre_update_value", "pre_update_switch", "zip_update"]
 PIPE_BUF = 65536
 # a child is certainly still writing when its reader goes away only if its output exceeds what the reader may have
 # taken in its reads before stopping (at most one 64 KiB buffer) plus what a pipe can hold (64 KiB): BIG is 512 KB
@@ -659,6 +663,150 @@ def check_decompress(ctx, rng, n):
     K.rmtree(root)
 
 
+# ----------------------------------------------------------------------------------------------- failing child x early stop
+
+def check_child_failure(ctx, rng, n):
+    """the shared family (props/child_failure.py): property-level expectations there; here additionally the model's
+    search_preprocessor / search_decompress (kind 1801) on the same abstract child and consumer"""
+    live = CF.run_family(ctx, rng, n, "C18")
+    mlines = []
+    for c in live:
+        ch = c["child"]
+        out = ch["out"]
+        stand_in = out if len(out) <= 200 else out[:100] + b"." * 200
+        # the child does not depend on the reader: success when cut short = success when fully read
+        mlines.append(vlist(["1", "1", vbytes(stand_in), vbytes(ch["err"][:50]), vbool(ch["ok"]), vbool(ch["ok"]), "100",
+                             vopt("1" if c["stops"] else None), "1" if c["route"] == "zip" else "0", "()"]))
+    mo = vlib.model(1801, mlines)
+    for c, ml, m in zip(live, mlines, mo):
+        if not m.startswith("("):
+            ctx.violation("model failed on a child-failure case: " + m[:60], dict(kind=1801, case=ml), nfi=True)
+            continue
+        mk = parse_val(m)[0]
+        if (mk != 0) != c["failed"]:
+            ctx.violation("search_%s model outcome %d, but the documented rule says %s (theorems preprocessor_failure_iff / "
+                          "decompress_outcome_table no longer describe the documented behaviour)" % (
+                              "decompress" if c["route"] == "zip" else "preprocessor", mk,
+                              "error" if c["failed"] else "success"), dict(kind=1801, case=ml, model=m), nfi=True)
+
+
+# ----------------------------------------------------------------------------------------------- flag order
+
+def doc_flag_state(events):
+    """independent reading of the flag documentation: the last flag that speaks about a setting decides it.
+    --pre CMD sets the preprocessor (an empty CMD or --no-pre disables it; -z overrides it); -z switches decompression
+    on, --no-search-zip off, a --pre with a real command overrides (= switches off) -z"""
+    pre, z = None, False
+    for e in reversed(events):
+        if e[0] == "pre":
+            pre = e[1] or None
+            break
+        if e[0] in ("nopre", "zip"):
+            break
+    for e in reversed(events):
+        if e[0] == "zip":
+            z = True
+            break
+        if e[0] == "nozip" or (e[0] == "pre" and e[1]):
+            break
+    return pre, z
+
+
+def check_flag_order(ctx, rng, n):
+    """every order / spelling / empty-value combination of --pre CMD, --pre=, --pre '', --no-pre, -z, --search-zip,
+    --no-search-zip (and an interleaved --pre-glob): model final_state (kind 1804) = spec (proved: flag_override_law) =
+    independent reading of the docs = what rg does, observed on a plain file and a .gz file with two tagging preprocessors"""
+    root = K.mktree("c18")
+    plain = b"hit raw\n"
+    gz = gzip.compress(b"hit unzipped\n", mtime=0)
+    if b"hit" in gz or shutil.which("gzip") is None:
+        ctx.violation("flag-order fixture unusable (gzip missing or the archive contains the needle literally)",
+                      dict(kind="flag-order-fixture"), nfi=True)
+        K.rmtree(root)
+        return
+    for nm, data in (("a.txt", plain), ("c.gz", gz)):
+        with open(os.path.join(root, nm), "wb") as f:
+            f.write(data)
+        os.chmod(os.path.join(root, nm), 0o644)
+    for tag in ("A", "B"):
+        with open(os.path.join(root, "pre%s.sh" % tag), "w") as f:
+            f.write('#!/bin/sh\nprintf "hit pre%s\\n"\n' % tag)
+        os.chmod(os.path.join(root, "pre%s.sh" % tag), 0o755)
+    A, B = ("pre", "./preA.sh"), ("pre", "./preB.sh")
+    E, NP, Z, NZ = ("pre", ""), ("nopre",), ("zip",), ("nozip",)
+    fixed = [[], [Z], [A], [Z, E], [A, Z, E], [A, E, Z], [Z, NP], [Z, A], [A, Z], [Z, A, NP], [Z, A, E], [E, Z], [Z, NZ],
+             [Z, NZ, E], [NZ, Z, E], [A, B], [A, NZ], [Z, E, E], [B, Z, NP, A], [A, NP, Z, E], [Z, A, Z], [Z, E, A, Z, E]]
+    cases = []
+    for evs in fixed:
+        for eq in (False, True):
+            cases.append(dict(events=evs, eq=eq, long_z=eq, glob_at=None))
+    for _ in range(n):
+        evs = [rng.choice([A, B, E, E, NP, Z, Z, NZ]) for _ in range(rng.randint(1, 6))]
+        cases.append(dict(events=evs, eq=rng.random() < 0.5, long_z=rng.random() < 0.3,
+                          glob_at=rng.randint(0, len(evs)) if rng.random() < 0.25 else None))
+    def argv(c):
+        a = []
+        for i, e in enumerate(c["events"]):
+            if c["glob_at"] == i:
+                a += ["--pre-glob", "*.txt"]
+            if e[0] == "pre":
+                a += ["--pre=" + e[1]] if c["eq"] else ["--pre", e[1]]
+            elif e[0] == "nopre":
+                a.append("--no-pre")
+            elif e[0] == "zip":
+                a.append("--search-zip" if c["long_z"] else "-z")
+            else:
+                a.append("--no-search-zip")
+        if c["glob_at"] == len(c["events"]):
+            a += ["--pre-glob", "*.txt"]
+        return a
+    for c in cases:
+        c["argv"] = argv(c)
+    res = K.pmap(lambda c: K.run_rg(["--color", "never", "-j1", "--sort", "path", "--no-ignore", "-H"] + c["argv"] +
+                                    ["-e", "hit", "a.txt", "c.gz"], root), cases)
+    enc = {"pre": lambda e: vlist(["0", vbytes(e[1].encode())]), "nopre": lambda e: vlist(["1"]),
+           "zip": lambda e: vlist(["2"]), "nozip": lambda e: vlist(["3"])}
+    mlines = [vlist([enc[e[0]](e) for e in c["events"]]) for c in cases]
+    mo = vlib.model(1804, mlines)
+    for c, ml, m, r in zip(cases, mlines, mo, res):
+        ctx.note_case("flags" + repr((c["argv"])), len(c["events"]) > 1)
+        ctx.cov["flag_order_runs"] = ctx.cov.get("flag_order_runs", 0) + 1
+        replay = dict(kind="flag-order", args=" ".join(c["argv"]) + " -e hit a.txt c.gz", model=m, status=r["status"],
+                      out=repr(r["out"][:200]), err=repr(r["err"][:200]))
+        if not m.startswith("("):
+            ctx.violation("flag state machine model failed: " + m[:60], replay, nfi=True)
+            continue
+        mv = parse_val(m)
+        dec = lambda o: (bytes(o[0]).decode() if isinstance(o, list) and o else None)
+        m_pre, m_zip, s_pre, s_zip = dec(mv[0]), bool(mv[1]), dec(mv[2]), bool(mv[3])
+        d_pre, d_zip = doc_flag_state(c["events"])
+        if (m_pre, m_zip) != (s_pre, s_zip) or (m_pre, m_zip) != (d_pre, d_zip):
+            ctx.violation("flag order: model final_state (%r, %r), Coq spec (%r, %r), independent reading of the docs (%r, %r) "
+                          "disagree" % (m_pre, m_zip, s_pre, s_zip, d_pre, d_zip), replay, nfi=True)
+            continue
+        # what each file must show
+        globbed = c["glob_at"] is not None
+        tag = lambda p: b"hit pre" + p[5:6].encode()
+        want_a = tag(d_pre) if d_pre else b"hit raw"
+        if d_pre and not globbed:
+            want_c = tag(d_pre)
+        elif d_zip:
+            want_c = b"hit unzipped"
+        else:
+            want_c = None          # raw gzip bytes: no match
+        got = {}
+        for line in r["out"].split(b"\n"):
+            if b":" in line:
+                pth, t = line.split(b":", 1)
+                got[pth.decode()] = t
+        if r["err"] or r["status"] != 0 or got.get("a.txt") != want_a or got.get("c.gz") != want_c:
+            ctx.violation("flag order: rg %s: a.txt shows %r (expected %r), c.gz shows %r (expected %r: the flags leave "
+                          "preprocessor=%r, decompression=%s in effect), status %d, stderr %r" % (
+                              " ".join(c["argv"]), got.get("a.txt"), want_a, got.get("c.gz"), want_c, d_pre,
+                              "on" if d_zip else "off", r["status"], r["err"][:100]), replay)
+    K.rmtree(root)
+
+
 # ----------------------------------------------------------------------------------------------- entry points
 
 def run(ctx):
@@ -684,6 +832,8 @@ def run(ctx):
     check_selection(ctx, rng, ctx.count(40))
     check_selection_roots(ctx, rng)
     check_decompress(ctx, rng, ctx.count(40))
+    check_child_failure(ctx, rng, ctx.count(40))
+    check_flag_order(ctx, rng, ctx.count(60))
     K.rmtree(root)
     K.report_drift(ctx, GEN_TARGETS, bool(ctx.violations))
     ctx.assumptions += [
